@@ -6,9 +6,13 @@
 //
 // n1,n2  nonces the initiator / responder draw (crypto/rand.Reader is replaced by a scripted reader)
 // p1,p2  protocol identifiers ("_" = empty string)
-// t1     tampering of act 1 on the wire: "-" or comma list of n=<u64> p=<proto>
-// t2     tampering of act 2: "-" or comma list of n=<u64> c=<64 hex> p=<proto>
-// t3     tampering of act 3: "-" or c=<64 hex>
+// t1     tampering of act 1 on the wire: "-" or comma list of n=<u64> l=<hex> p=<proto>
+// t2     tampering of act 2: "-" or comma list of n=<u64> l=<hex> c=<hex> p=<proto>
+// t3     tampering of act 3: "-" or c=<hex>
+//
+//	c=<hex> replaces the challenge FIELD by these bytes (0..40 bytes; 32 = a well-formed one),
+//	l=<hex> replaces the nonce FIELD by these raw bytes (0..16 bytes; 8 = little-endian nonce):
+//	fields of another length do not unmarshal (obs u<act>=err:wire).
 // H      table a:b:<64 hex> of the REAL hashToChallenge values the model needs (H is a parameter
 //
 //	of the model; values are obtained from the real function through the verif hook)
@@ -99,6 +103,46 @@ func genSystematic(r *hx.Rng) []string {
 				line(n1, n2, hx.Pick(r, protos), "-", c, "-", tab)
 			} else {
 				line(n1, n2, hx.Pick(r, protos), "-", "-", c, tab)
+			}
+		}
+	}
+	// wire-level alterations: fields of the wrong length, with the right content as a prefix
+	for _, extra := range []int{-32, -1, 1, 2, 8} {
+		for act := 2; act <= 3; act++ {
+			n1, n2 := r.U64(), r.U64()
+			tab := &htab{seen: map[string]bool{}}
+			b, _ := hex.DecodeString(hstr(n1, n2))
+			if extra < 0 {
+				b = b[:32+extra]
+			} else {
+				b = append(b, r.Bytes(extra)...)
+			}
+			c := "c=" + hex.EncodeToString(b)
+			if act == 2 {
+				line(n1, n2, hx.Pick(r, protos), "-", c, "-", tab)
+			} else {
+				line(n1, n2, hx.Pick(r, protos), "-", "-", c, tab)
+			}
+		}
+	}
+	for _, extra := range []int{-8, -1, 0, 1, 8} {
+		for act := 1; act <= 2; act++ {
+			n1, n2 := r.U64(), r.U64()
+			tab := &htab{seen: map[string]bool{}}
+			raw := le(n1)
+			if act == 2 {
+				raw = le(n2)
+			}
+			if extra < 0 {
+				raw = raw[:8+extra]
+			} else {
+				raw = append(raw, make([]byte, extra)...)
+			}
+			l := "l=" + hex.EncodeToString(raw)
+			if act == 1 {
+				line(n1, n2, hx.Pick(r, protos), l, "-", "-", tab)
+			} else {
+				line(n1, n2, hx.Pick(r, protos), "-", l, "-", tab)
 			}
 		}
 	}
@@ -301,7 +345,10 @@ func errClass(err error) string {
 
 type tamper struct {
 	n    *uint64
+	l    []byte // raw nonce field
+	hasL bool
 	c    []byte
+	hasC bool
 	p    *string
 	used bool
 }
@@ -317,16 +364,22 @@ func parseTamper(s string, allow string) (*tamper, bool) {
 		switch f[0] {
 		case 'n':
 			x, err := strconv.ParseUint(v, 10, 64)
-			if err != nil || t.n != nil {
+			if err != nil || t.n != nil || t.hasL {
 				return nil, false
 			}
 			t.n = &x
-		case 'c':
+		case 'l':
 			b, err := hex.DecodeString(v)
-			if err != nil || len(b) != 32 || t.c != nil || strings.ToLower(v) != v {
+			if err != nil || len(b) > 16 || t.hasL || t.n != nil || strings.ToLower(v) != v {
 				return nil, false
 			}
-			t.c = b
+			t.l, t.hasL = b, true
+		case 'c':
+			b, err := hex.DecodeString(v)
+			if err != nil || len(b) > 40 || t.hasC || strings.ToLower(v) != v {
+				return nil, false
+			}
+			t.c, t.hasC = b, true
 		case 'p':
 			if t.p != nil || v == "" {
 				return nil, false
@@ -364,8 +417,8 @@ func exec(op string) (string, string) {
 	}
 	n1, e1 := strconv.ParseUint(f[1], 10, 64)
 	n2, e2 := strconv.ParseUint(f[3], 10, 64)
-	t1, ok1 := parseTamper(f[5], "np")
-	t2, ok2 := parseTamper(f[6], "ncp")
+	t1, ok1 := parseTamper(f[5], "nlp")
+	t2, ok2 := parseTamper(f[6], "nlcp")
 	t3, ok3 := parseTamper(f[7], "c")
 	if e1 != nil || e2 != nil || !ok1 || !ok2 || !ok3 || f[2] == "" || f[4] == "" || !validTable(f[8]) {
 		return "bad-op", "bad"
@@ -408,13 +461,17 @@ func exec(op string) (string, string) {
 	if t1.n != nil {
 		pb1.Nonce = le(*t1.n)
 	}
+	if t1.hasL {
+		pb1.Nonce = t1.l
+	}
 	if t1.p != nil {
 		pb1.Protocol = *t1.p
 	}
 	w1, _ = proto.Marshal(&pb1)
 	m1 := &handshake.Act1Message{}
 	if err := m1.Unmarshal(w1); err != nil {
-		return "wire-error", "bad"
+		obs = append(obs, "u1=err:wire")
+		return done("wire1")
 	}
 
 	// act 2
@@ -438,7 +495,13 @@ func exec(op string) (string, string) {
 	if t2.n != nil {
 		pb2.Nonce = le(*t2.n)
 	}
-	if t2.c != nil {
+	if t2.hasL {
+		pb2.Nonce = t2.l
+	}
+	if t2.hasC {
+		if len(t2.c) > 32 && string(t2.c[:32]) == string(pb2.Challenge) {
+			tags = append(tags, "c2-long")
+		}
 		pb2.Challenge = t2.c
 	}
 	if t2.p != nil {
@@ -447,11 +510,12 @@ func exec(op string) (string, string) {
 	w2, _ = proto.Marshal(&pb2)
 	m2 := &handshake.Act2Message{}
 	if err := m2.Unmarshal(w2); err != nil {
-		return "wire-error", "bad"
+		obs = append(obs, "u2=err:wire")
+		return done("wire2")
 	}
 
 	// act 3
-	if t2.c != nil {
+	if t2.hasC {
 		if t := diffTag("c2", t2.c, ra2.Message()); t != "" {
 			tags = append(tags, t)
 		}
@@ -474,16 +538,20 @@ func exec(op string) (string, string) {
 		return "wire-error", "bad"
 	}
 	obs = append(obs, "a3="+hex.EncodeToString(pb3.Challenge))
-	if t3.c != nil {
+	if t3.hasC {
 		if t := diffTag("c3", t3.c, ra2.Message()); t != "" {
 			tags = append(tags, t)
+		}
+		if len(t3.c) > 32 && string(t3.c[:32]) == string(pb3.Challenge) {
+			tags = append(tags, "c3-long")
 		}
 		pb3.Challenge = t3.c
 	}
 	w3, _ = proto.Marshal(&pb3)
 	m3 := &handshake.Act3Message{}
 	if err := m3.Unmarshal(w3); err != nil {
-		return "wire-error", "bad"
+		obs = append(obs, "u3=err:wire")
+		return done("wire3")
 	}
 	if err := ra3.FinalizeHandshake(m3); err != nil {
 		obs = append(obs, "f="+errClass(err))
@@ -521,5 +589,10 @@ func diffTag(pfx string, tampered []byte, real *handshake.Act2Message) string {
 }
 
 func main() {
-	hx.Main(&hx.Config{Prop: "C20", Gen: gen, Exec: exec})
+	hx.Main(&hx.Config{Prop: "C20", Gen: gen, Exec: exec, Facts: func() []string {
+		return []string{
+			fmt.Sprintf("nat nonceByteLength %d", handshake.VerifNonceByteLength),
+			fmt.Sprintf("nat challengeByteLength %d", handshake.VerifChallengeByteLength),
+		}
+	}})
 }
